@@ -1777,7 +1777,9 @@ def translate_unit(src, unit, fail):
         snippets[f["name"]] = ms[0].group(0)[:-1].strip() + " {" + body + "}"
         try:
             toks = tokenize(body, start)
-            if unit.get("dialect") == "cf":
+            if unit.get("dialect") == "cf" and f.get("io"):          # sub-dialect "io" (builder genio): rs2lean_cf.IoFn
+                tr = rs2lean_cf.IoFn(unit, f, src, body, start)
+            elif unit.get("dialect") == "cf":
                 tr = rs2lean_cf.FnTranslatorX(unit, f, src, body, start)
             else:
                 tr = FnTranslator(unit, f, src, body, start)
@@ -1788,7 +1790,7 @@ def translate_unit(src, unit, fail):
                  "longer be regenerated)" % (where, what, u.msg, f.get("theorem", "")))
         out_fns.append((f, line, body, helpers, main))
     name = unit["name"]
-    txt = ["import RbV.Basic.RsSem",
+    txt = ["import RbV.Basic.RsSem"] + ["import " + m for m in unit.get("lean_imports", [])] + [
            "/-! GENERATED by tools/rs2lean.py (tools/gen_tables.py, %s) — do not edit." % unit["props"],
            "Translation of the *text* of the following functions of `%s` (comments blanked) into Lean, regenerated from" % rel,
            "the source tree on every `./check`.  Semantics of the operations: `RbV/Basic/RsSem.lean` (`Res.panic` = the Rust",
@@ -1811,6 +1813,8 @@ def translate_unit(src, unit, fail):
     if gens:
         txt.append("variable " + " ".join("{%s : Type}" % g for g in gens))
     txt.append("")
+    if unit.get("dialect") == "cf" and (unit.get("io_structs") or unit.get("io_consts")):
+        txt.extend(rs2lean_cf.io_unit_preamble(src_all, unit, fail))
     for f, line, body, helpers, main in out_fns:
         for h in helpers:
             txt.append(h)
@@ -2086,6 +2090,91 @@ unit(name="SrcIit", props="property C07", file="src/data_structures/interval_tre
                      locals={"t": "usize", "stack": "[StackCell; 64]"},
                      # every round removes at least one unit of the weight 3^(k+1) / 3^k + 1 of the stack cells
                      fuel=["3 ^ (max_level + 2)"], theorem="RbV.Thm.GenSrcIit.findInto_eq_model")])
+
+
+
+# ---- sub-dialect "io" of dialect "cf" (rs2lean_cf.IoFn; builder genio): C12, the indexed FASTA reader ----------------------------
+# The `BufReader` below the `IndexedReader` is an opaque value `reader : ρ`; what the code asks of it are the abstract
+# operations `fillBuf` (`fill_buf()`: the buffered bytes, possibly after a refill), `consume`, `seekStart`
+# (`seek(SeekFrom::Start(o))`).  The theorems instantiate them with the reader of the mirror model (file + position + chunk
+# schedule, lean/RbV/Model/IndexedFasta.lean) — trusted: std's `BufReader` / `Seek` behave like that.  `cap` is the value of
+# `self.buf.capacity()` (any positive number: `Vec::with_capacity(c)` guarantees only `≥ c`), `fuel` bounds the `while` loops
+# (a ghost parameter; the theorems hold for every fuel above the length of the file).
+IDXFA_OPS = {
+    "fillBuf": dict(method="fill_buf", args=[], ret="io::Result<&[u8]>", mut=True, lean_ty="ρ → Except IoErr (List Nat) × ρ"),
+    "consume": dict(method="consume", args=["usize"], ret=None, mut=True, lean_ty="ρ → Nat → ρ"),
+    "seekStart": dict(method="seek", wrap=["SeekFrom", "Start"], args=["u64"], ret="io::Result<u64>", mut=True,
+                      lean_ty="ρ → Nat → Except IoErr Nat × ρ"),
+    "cap": dict(lean_ty="Nat"),
+}
+IDXFA_ITER_FIELDS = [("reader.reader", "Rd"), ("record", "IndexRecord"), ("bases_left", "u64"), ("line_offset", "u64"),
+                     ("buf", "Vec<u8>"), ("buf_idx", "usize")]
+IDXFA_FETCH_FIELDS = [("index.inner", "Vec<IndexRecord>"), ("fetched_idx", "Option<IndexRecord>"), ("start", "Option<u64>"),
+                      ("stop", "Option<u64>")]
+IDXFA_FETCH_OUTS = ["self.fetched_idx", "self.start", "self.stop"]
+IDXFA_ITER_OUTS = ["self.reader.reader", "self.bases_left", "self.line_offset", "self.buf", "self.buf_idx"]
+
+unit(name="SrcIdxFa", props="property C12", file="src/io/fasta.rs", dialect="cf", lean_imports=["RbV.Basic.RsSemIo"],
+     generics={"Rd": "ρ"}, aliases={"Text": "Vec<u8>"}, io_ops=IDXFA_OPS,
+     io_structs={"IndexRecord": dict(fields=[("len", "u64"), ("offset", "u64"), ("line_bases", "u64"), ("line_bytes", "u64")],
+                                     skip=["name"],
+                                     pinned="struct IndexRecord { name: String, len: u64, offset: u64, line_bases: u64, "
+                                            "line_bytes: u64, }")},
+     io_consts={"MAX_FASTA_BUFFER_SIZE": "usize"},
+     functions=[dict(name="IndexedReader::seek_to", lean="seekTo", io=True,
+                     header="fn seek_to(&mut self, idx: &IndexRecord, start: u64) -> io::Result<u64>",
+                     self_fields=[("reader", "Rd")], params=[("idx", "&IndexRecord"), ("start", "u64")],
+                     ret="io::Result<u64>", outs=["self.reader"], ops=["seekStart"],
+                     theorem="RbV.Thm.GenSrcIdxFa.seekTo_eq_model"),
+                dict(name="IndexedReader::read_line", lean="readLine", io=True,
+                     header="fn read_line(&mut self, idx: &IndexRecord, line_offset: &mut u64, bases_left: u64, "
+                            "buf: &mut Vec<u8>,) -> io::Result<u64>",
+                     self_fields=[("reader", "Rd")],
+                     params=[("idx", "&IndexRecord"), ("line_offset", "&mut u64"), ("bases_left", "u64"), ("buf", "&mut Vec<u8>")],
+                     ret="io::Result<u64>", outs=["self.reader", "line_offset", "buf"], ops=["fillBuf", "consume"],
+                     theorem="RbV.Thm.GenSrcIdxFa.readLine_contract"),
+                dict(name="IndexedReader::read_into_buffer", lean="readIntoBuffer", io=True,
+                     header="fn read_into_buffer(&mut self, idx: IndexRecord, start: u64, stop: u64, seq: &mut Text,) "
+                            "-> io::Result<()>",
+                     self_fields=[("reader", "Rd")],
+                     params=[("idx", "IndexRecord"), ("start", "u64"), ("stop", "u64"), ("seq", "&mut Text")],
+                     ret="io::Result<()>", outs=["self.reader", "seq"], ops=["fillBuf", "consume", "seekStart"],
+                     ghosts=[("fuel", "Nat")], fuel=["fuel"], siblings=["seek_to", "read_line"],
+                     theorem="RbV.Thm.GenSrcIdxFa.readIntoBuffer_eq_model"),
+                dict(name="IndexedReader::idx_by_rid", lean="idxByRid", io=True,
+                     header="fn idx_by_rid(&self, rid: usize) -> io::Result<IndexRecord>",
+                     self_fields=[("index.inner", "Vec<IndexRecord>")], params=[("rid", "usize")],
+                     ret="io::Result<IndexRecord>", outs=[], ops=[],
+                     theorem="RbV.Thm.GenSrcIdxFa.idxByRid_eq_model"),
+                dict(name="IndexedReader::fetch_by_rid", lean="fetchByRid", io=True,
+                     header="pub fn fetch_by_rid(&mut self, rid: usize, start: u64, stop: u64) -> io::Result<()>",
+                     self_fields=IDXFA_FETCH_FIELDS, params=[("rid", "usize"), ("start", "u64"), ("stop", "u64")],
+                     ret="io::Result<()>", outs=IDXFA_FETCH_OUTS, ops=[], siblings=["idx_by_rid"],
+                     theorem="RbV.Thm.GenSrcIdxFa.fetchByRid_eq_model"),
+                dict(name="IndexedReader::fetch_all_by_rid", lean="fetchAllByRid", io=True,
+                     header="pub fn fetch_all_by_rid(&mut self, rid: usize) -> io::Result<()>",
+                     self_fields=IDXFA_FETCH_FIELDS, params=[("rid", "usize")],
+                     ret="io::Result<()>", outs=IDXFA_FETCH_OUTS, ops=[], siblings=["idx_by_rid"],
+                     theorem="RbV.Thm.GenSrcIdxFa.fetchAllByRid_eq_model"),
+                dict(name="IndexedReader::read", lean="read", io=True,
+                     header="pub fn read(&mut self, seq: &mut Text) -> io::Result<()>",
+                     self_fields=[("reader", "Rd"), ("fetched_idx", "Option<IndexRecord>"), ("start", "Option<u64>"),
+                                  ("stop", "Option<u64>")],
+                     params=[("seq", "&mut Text")], ret="io::Result<()>", outs=["self.reader", "seq"],
+                     ops=["fillBuf", "consume", "seekStart"], ghosts=[("fuel", "Nat")], siblings=["read_into_buffer"],
+                     theorem="RbV.Thm.GenSrcIdxFa.read_eq"),
+                dict(name="IndexedReaderIterator::fill_buffer", lean="fillBuffer", io=True,
+                     header="fn fill_buffer(&mut self) -> io::Result<()>",
+                     self_fields=IDXFA_ITER_FIELDS, params=[], ret="io::Result<()>", outs=IDXFA_ITER_OUTS,
+                     ops=["fillBuf", "consume", "cap"], abs_vals={"self.buf.capacity": dict(lean="cap", ty="usize")},
+                     ghosts=[("fuel", "Nat")], fuel=["fuel"], siblings=["read_line"],
+                     theorem="RbV.Thm.GenSrcIdxFa.fillBuffer_spec"),
+                dict(name="IndexedReaderIterator::next", lean="next", io=True,
+                     header="fn next(&mut self) -> Option<Self::Item>",
+                     after="impl<'a, R: io::Read + io::Seek + 'a> Iterator for IndexedReaderIterator<'a, R>",
+                     self_fields=IDXFA_ITER_FIELDS, params=[], ret="Option<io::Result<u8>>", outs=IDXFA_ITER_OUTS,
+                     ops=["fillBuf", "consume", "cap"], ghosts=[("fuel", "Nat")], siblings=["fill_buffer"],
+                     theorem="RbV.Thm.GenSrcIdxFa.next_spec")])
 
 
 # ================================================================================================== self-test
